@@ -564,3 +564,71 @@ def make_wide_sequence_frames(rng):
         f += (h & 0xFFFFFFFF).to_bytes(4, 'little')
         out.append({'frame': f, 'length': len(new), 'xxh': h, 'features': ['bits>56', 'of-code-26', 'll%d' % ll, 'ml%d' % ml]})
     return out
+
+
+def make_broken_table_then_repeat(rng, count):
+    """hostile histories around a rejected FSE table description (finding F13): a frame
+    [optional valid compressed block] [compressed block whose description of one sequence table is rejected]
+    [compressed block that REPEATS that table], and a second frame whose first compressed block repeats the table
+    (for a decoder that is re-used after the error).  -> list of (first_frame, second_frame, label)"""
+    out = []
+    for _ in range(count):
+        kind = rng.choice(['of', 'of', 'll', 'ml'])
+        with_valid = rng.below(3) != 0
+        how = rng.choice(['acclog', 'acclog', 'truncated', 'garbage'])
+        history = bytearray(rng.bytes(rng.choice([300, 900])))
+        body = block_header(0, 0, len(history)) + bytes(history)
+        rep = [1, 4, 8]
+        state = {'ll': Tbl(), 'ml': Tbl(), 'of': Tbl()}
+
+        def good_block(mode_for_kind, last, hist, st, rp):
+            seqs, lits = [], bytearray()
+            for k in range(rng.range(1, 4)):
+                ll = rng.choice([1, 2, 5]); ml = rng.choice([3, 4, 9]); ov = 3 + rng.range(1, 200)
+                lits += rng.bytes(ll)
+                seqs.append((ll, ml, ov))
+            modes = {'ll': 'predef', 'ml': 'predef', 'of': 'predef'}
+            modes[kind] = mode_for_kind
+            nh = apply_sequences(bytearray(hist), bytes(lits), seqs, rp)
+            if nh is None:
+                return None, hist
+            blk = compressed_block(bytes(lits), 'raw', seqs, modes, st, last)
+            return blk, nh
+        if with_valid:
+            blk, history = good_block('predef', 0, history, state, rep)
+            if blk is None:
+                continue
+            body += blk
+        # the block with the rejected description: raw literals, one sequence, the table of `kind` "FSE compressed"
+        mode_bits = {'ll': 6, 'of': 4, 'ml': 2}
+        desc = {'acclog': bytes([0x0F | (rng.below(16) << 4)]) + rng.bytes(rng.range(0, 4)),
+                'truncated': bytes([rng.below(4)]),
+                'garbage': rng.bytes(rng.range(1, 6))}[how]
+        sq = bytes([1, 2 << mode_bits[kind]]) + desc
+        lit = raw_literals_header(1, None) + b'A'
+        bad = lit + sq
+        body += block_header(0, 2, len(bad)) + bad
+        # a block that repeats the table; its bit stream is written for the table the writer still "has"
+        if state[kind].cur is None:
+            t, al = predefined(kind)
+            state[kind].cur = ('fse', t, al)
+            for k2 in ('ll', 'ml', 'of'):
+                if state[k2].cur is None:
+                    t2, al2 = predefined(k2)
+                    state[k2].cur = ('fse', t2, al2)
+        blk, _ = good_block('repeat', 1, history, state, rep)
+        if blk is None:
+            continue
+        first = frame_header_bytes(window_log=12, fcs=None, checksum=0) + body + blk
+        # second frame for a re-used decoder: raw block, then a block that repeats the table right away
+        st2 = {'ll': Tbl(), 'ml': Tbl(), 'of': Tbl()}
+        for k2 in ('ll', 'ml', 'of'):
+            t2, al2 = predefined(k2)
+            st2[k2].cur = ('fse', t2, al2)
+        h2 = bytearray(rng.bytes(400))
+        blk2, _ = good_block('repeat', 1, h2, st2, [1, 4, 8])
+        if blk2 is None:
+            continue
+        second = frame_header_bytes(window_log=12, fcs=None, checksum=0) + block_header(0, 0, len(h2)) + bytes(h2) + blk2
+        out.append((first, second, 'broken-%s-table-%s%s' % (kind, how, '+valid-before' if with_valid else '')))
+    return out
